@@ -8,6 +8,7 @@ import (
 
 	"verif/harness/hx"
 
+	baskettypes "github.com/KiraCore/sekai/x/basket/types"
 	sdk "github.com/cosmos/cosmos-sdk/types"
 )
 
@@ -30,6 +31,8 @@ func (e *env) randomOp() {
 	u := 1 + r.Intn(NACC-1)
 	v := r.Intn(2)
 	app := e.c.App
+	e.bk = []uint64{1, 1, 2}[r.Intn(3)]
+	pool := []string{"sp1", "sp1", "sp2"}[r.Intn(3)]
 	switch r.Intn(38) {
 	case 30, 31:
 		// SpendingPoolWithdraw with 1..3 beneficiaries (a0 by role, a3, a4; sometimes a stranger) and 1..2 denominations
@@ -41,14 +44,14 @@ func (e *env) randomOp() {
 		if r.Chance(10) {
 			am = coins("ukex", 90_000_000_000_000) // more than the pool holds
 		}
-		e.withdrawProposal("sp1", bens, am)
+		e.withdrawProposal(pool, e.perturbInts(bens), e.perturbCoins(am))
 	case 32, 33:
-		e.distributionProposal("sp1")
+		e.distributionProposal(pool)
 	case 34:
-		e.surplusProposal(5)
+		e.surplusProposal(5, e.perturbIDs([][]uint64{{1}, {2}, {1, 2}, {2, 1}, {1, 7}}[r.Intn(5)]))
 	case 35:
 		if r.Bool() {
-			e.collSendDonation(5, coins("ukex", e.pickAmt()))
+			e.collSendDonation(5, e.perturbCoins(coins("ukex", e.pickAmt())))
 		} else {
 			e.collRemove()
 		}
@@ -58,11 +61,11 @@ func (e *env) randomOp() {
 		// several denominations in one message
 		switch r.Intn(3) {
 		case 0:
-			e.delegateCoins(u, v, coins("ukex", e.pickAmt()).Add(coin("ubtc", e.pickAmt())))
+			e.delegateCoins(u, v, e.perturbCoins(coins("ukex", e.pickAmt()).Add(coin("ubtc", e.pickAmt()))))
 		case 1:
-			e.spDepositCoins(u, "sp1", coins("ukex", e.pickAmt()).Add(coin("ubtc", e.pickAmt())).Add(coin("xeth", e.pickAmt())))
+			e.spDepositCoins(u, pool, e.perturbCoins(coins("ukex", e.pickAmt()).Add(coin("ubtc", e.pickAmt())).Add(coin("xeth", e.pickAmt()))))
 		default:
-			e.basketMintCoins(u, coins("ubtc", e.pickAmt()).Add(coin("xeth", e.pickAmt())))
+			e.basketMintCoins(u, e.perturbCoins(coins("ubtc", e.pickAmt()).Add(coin("xeth", e.pickAmt()))))
 		}
 	case 0, 1, 2:
 		e.delegate(u, v, stakable[r.Intn(2)], e.pickAmt())
@@ -93,7 +96,7 @@ func (e *env) randomOp() {
 			other = "ukex"
 		}
 		if oh := app.BankKeeper.GetBalance(e.ctx(), e.accAddr(u), fmt.Sprintf("v%d/%s", p.Id, other)).Amount; oh.IsPositive() && r.Chance(30) {
-			e.undelegateCoins(u, v, coins(den, amt).Add(coin(other, 1+r.Range(0, oh.Int64()-1))))
+			e.undelegateCoins(u, v, e.perturbCoins(coins(den, amt).Add(coin(other, 1+r.Range(0, oh.Int64()-1)))))
 		} else {
 			e.undelegate(u, v, den, amt)
 		}
@@ -130,28 +133,45 @@ func (e *env) randomOp() {
 	case 9, 10:
 		e.basketMint(u, []string{"ubtc", "xeth"}[r.Intn(2)], e.pickAmt())
 	case 11:
-		held := app.BankKeeper.GetBalance(e.ctx(), e.accAddr(u), "b1/usd").Amount
+		held := app.BankKeeper.GetBalance(e.ctx(), e.accAddr(u), e.basketDenom()).Amount
 		amt := e.pickAmt()
 		if held.IsPositive() && !r.Chance(20) {
 			amt = 1 + r.Range(0, held.Int64()-1)
 		}
 		e.basketBurn(u, amt)
 	case 12:
-		if r.Bool() {
-			e.basketSwap(u, "ubtc", e.pickAmt(), "xeth")
-		} else {
-			e.basketSwap(u, "xeth", e.pickAmt(), "ubtc")
+		// a swap needs reserves of both tokens: steer by funding an empty basket first
+		if b, err := app.BasketKeeper.GetBasketById(e.ctx(), e.bk); err == nil {
+			for _, t := range b.Tokens {
+				if t.Amount.LT(sdk.NewInt(5_000_000)) {
+					e.basketMintCoins(u, coins("ubtc", r.Range(6_000_000, 9_000_000)).Add(coin("xeth", r.Range(6_000_000, 9_000_000))))
+					break
+				}
+			}
+		}
+		p1 := baskettypes.SwapPair{InAmount: coin("ubtc", e.pickAmt()), OutToken: "xeth"}
+		p2 := baskettypes.SwapPair{InAmount: coin("xeth", e.pickAmt()), OutToken: "ubtc"}
+		switch r.Intn(6) {
+		case 0:
+			e.basketSwapPairs(u, []baskettypes.SwapPair{p1, p1}) // the same pair twice
+		case 1:
+			e.basketSwapPairs(u, []baskettypes.SwapPair{p1, p2, p1})
+		case 2:
+			e.basketSwapPairs(u, []baskettypes.SwapPair{})
+		case 3:
+			e.basketSwapPairs(u, []baskettypes.SwapPair{p2})
+		default:
+			e.basketSwapPairs(u, []baskettypes.SwapPair{p1})
 		}
 	case 13, 14:
-		pool := "sp1"
 		if r.Chance(15) {
 			pool = "nosuchpool" // coins are sent before the pool is looked up: must roll back
 		}
 		e.spDeposit(u, pool, []string{"ukex", "ubtc", "xeth"}[r.Intn(3)], e.pickAmt())
 	case 15:
-		e.spRegister(3+r.Intn(2), "sp1")
+		e.spRegister([]int{3, 4, 0}[r.Intn(3)], pool)
 	case 16:
-		e.spClaim([]int{3, 4, 0, 4, 5}[r.Intn(5)], "sp1")
+		e.spClaim([]int{3, 4, 0, 4, 5}[r.Intn(5)], pool)
 	case 17, 18:
 		e.tipRequest(1+r.Intn(4), 1+r.Intn(4), []int64{200, 250, 1000, 5000, 777, 199, 0}[r.Intn(7)])
 	case 19, 20:
@@ -294,16 +314,29 @@ func scenarioProposals(e *env) {
 	e.setup()
 	e.begin(5, 0)
 	e.withdrawProposal("sp1", []int{3}, coins("ukex", 1_000))
+	e.withdrawProposal("sp1", []int{3, 3}, coins("ukex", 77))                // the same beneficiary twice: paid twice, recorded twice
+	e.withdrawProposal("sp1", []int{}, coins("ukex", 77))                    // nobody
+	e.withdrawProposal("sp1", []int{4}, sdk.Coins{coin("ukex", 5), coin("ukex", 6)}) // a denomination twice: must fail as a whole
+	e.withdrawProposal("sp2", []int{0, 3, 0}, coins("ukex", 1_234))
 	e.withdrawProposal("sp1", []int{3, 4}, coins("ukex", 1_000_000).Add(coin("ubtc", 70_000)))
 	e.withdrawProposal("sp1", []int{0, 3, 4}, coins("ukex", 333))
 	e.withdrawProposal("sp1", []int{3, 5}, coins("ukex", 5)) // a5 is no beneficiary: the first payment must be rolled back
 	e.basketMintCoins(2, coins("ubtc", 900_000).Add(coin("xeth", 400_000)))
 	e.basketSwap(2, "ubtc", 50_000, "xeth")
-	e.surplusProposal(5)
+	e.bk = 2
+	e.basketMintCoins(2, coins("ubtc", 500_000).Add(coin("xeth", 500_000)))
+	e.basketSwapPairs(2, []baskettypes.SwapPair{{InAmount: coin("xeth", 30_000), OutToken: "ubtc"}, {InAmount: coin("xeth", 30_000), OutToken: "ubtc"}})
+	e.bk = 1
+	e.surplusProposal(5, []uint64{1, 1})    // the same basket twice: its surplus may be paid once
+	e.basketSwap(2, "xeth", 40_000, "ubtc")
+	e.surplusProposal(5, []uint64{2, 1, 2}) // overlap
+	e.surplusProposal(5, []uint64{})
+	e.surplusProposal(5, []uint64{1, 9}) // unknown id
 	e.ubiProposal("ubiA", 7, 100)
 	e.end()
 	e.begin(3_600, 1)
 	e.distributionProposal("sp1")
+	e.distributionProposal("sp2") // a0 is a beneficiary by account and by role, a3 is listed twice
 	e.spClaim(4, "sp1")
 	e.basketBurn(2, 100_000)
 	e.collSendDonation(5, coins("ukex", 10))
